@@ -31,3 +31,41 @@ Definition run_c05_dropbox (v : val) : val :=
           of_bool (match dfinal s with Some _ => true | None => false end); of_bool res]
     | _, _, _, _, _ => bad_input end
   | _ => bad_input end.
+
+(* Yandex Disk (tag 501) and Google Drive (tag 502): one streamed body; replies: 0 Ok / 1 Fail / 2 Pending / 3 Async, indexed by request
+   number within this upload (Yandex: 0 = upload href, 1 = PUT, 2.. = operation polling, then md5, move, ...; Google: 0 = start, 1 = PUT,
+   2 = md5, 3 = rename, ...).
+   case: (body_size sum_ok replies temp0 final0)    result: (0 temp_present final_is_new final_count result) *)
+Definition rep_of (n : N) : rep := match n with 0 => Ok | 2 => Pending | 3 => Async | _ => Fail end.
+
+Definition run_c05_yandex (v : val) : val :=
+  match v with
+  | VL [size; sumok; replies; t0; f0] =>
+    match as_nat size, as_bool sumok, as_listof as_N replies, as_bool t0, as_bool f0 with
+    | Some size, Some sumok, Some replies, Some t0, Some f0 =>
+      let all := repeat 7 size in
+      let sum := if sumok then all else 9 :: all in
+      let reply k := rep_of (nth k replies 0) in
+      let s0 := {| ytemp := if t0 then Some [1] else None; yfinal := if f0 then Some [2] else None |} in
+      let '(s, res) := yandex reply (fun b => b) Restore2.list_eqb 5 [CStream 0 all; CEof size sum] s0 in
+      VL [VN 0; of_bool (match ytemp s with Some _ => true | None => false end);
+          of_bool (match yfinal s with Some b => Restore2.list_eqb b all | None => false end);
+          VN (match yfinal s with Some _ => 1 | None => 0 end); of_bool res]
+    | _, _, _, _, _ => bad_input end
+  | _ => bad_input end.
+
+Definition run_c05_google (v : val) : val :=
+  match v with
+  | VL [size; sumok; replies; t0; f0] =>
+    match as_nat size, as_bool sumok, as_listof as_N replies, as_bool t0, as_bool f0 with
+    | Some size, Some sumok, Some replies, Some t0, Some f0 =>
+      let all := repeat 7 size in
+      let sum := if sumok then all else 9 :: all in
+      let reply k := rep_of (nth k replies 0) in
+      let s0 := {| gtemp := if t0 then Some [1] else None; gfinal := if f0 then [[2]] else [] |} in
+      let '(s, res) := google reply (fun b => b) Restore2.list_eqb [CStream 0 all; CEof size sum] s0 in
+      VL [VN 0; of_bool (match gtemp s with Some _ => true | None => false end);
+          of_bool (existsb (fun b => Restore2.list_eqb b all) (gfinal s));
+          VN (N.of_nat (length (gfinal s))); of_bool res]
+    | _, _, _, _, _ => bad_input end
+  | _ => bad_input end.
